@@ -52,6 +52,7 @@ _py_int = int
 _py_complex = complex
 _py_sum = sum
 _py_abs = abs
+_b_sorted = sorted
 _py_min = min
 _py_max = max
 _py_all = all
@@ -605,6 +606,12 @@ class Tensor:
     def flatten(self):
         return reshape(self, [-1])
 
+    def topk(self, k, dim=-1, largest=True, sorted=True):  # noqa: A002
+        return topk(self, k, dim, largest, sorted)
+
+    def sort(self, dim=-1, descending=False):
+        return sort(self, dim, descending)
+
     def conj(self):
         return conj(self)
 
@@ -635,6 +642,26 @@ class Tensor:
 
     def __setitem__(self, key, val):
         _check_inplace(self)
+        if self.a.ndim == 1 and (_isinstance(key, SymInt) or (_isinstance(key, Tensor) and key.a.ndim == 0 and _isinstance(key.a[()], SymInt))):
+            # store at a symbolic position of a vector: every slot becomes if-then-else(position == j, value, old)
+            import z3
+            kk = key if _isinstance(key, SymInt) else key.a[()]
+            n = self.a.shape[0]
+            if not SymBool(z3.And(kk.t >= -n, kk.t < n)):
+                raise IndexError('index out of range (symbolic)')
+            pos = z3.If(kk.t < 0, kk.t + n, kk.t)
+            vv = val.a.reshape(-1)[0] if _isinstance(val, Tensor) else val
+            for j in range(n):
+                old_ = self.a[j]
+                if old_ is vv:
+                    continue
+                if _isinstance(vv, (SymInt, int, _np.integer)) and _isinstance(old_, (SymInt, int, _np.integer)):
+                    self.a[j] = SymInt(z3.If(pos == j, SymInt.lift(vv).t, SymInt.lift(old_).t))
+                elif vv is _sc.HAVOC or old_ is _sc.HAVOC:
+                    self.a[j] = _sc.HAVOC
+                else:
+                    unsupported('symbolic-position store of this value kind')
+            return
         k, adv = _norm_key(self, key)
         if adv is not None:
             unsupported('advanced-index assignment')
@@ -761,6 +788,15 @@ def _norm_key(t, key):
                     unsupported('more than one advanced index')
                 adv = ('arr', len(out), k)
                 out.append(k)
+        elif type(k).__name__ == 'ndarray' and hasattr(k, 'tdtype'):
+            # numpy-array stand-in (symnumpy.ndarray) holding integer positions
+            kk = Tensor(k.a, int64)
+            if kk.a.ndim == 0:
+                unsupported('0-d numpy index')
+            if adv is not None:
+                unsupported('more than one advanced index')
+            adv = ('arr', len(out), kk)
+            out.append(kk)
         elif _isinstance(k, (list, _np.ndarray)):
             kk = Tensor(_objarr(_np.asarray(k)), int64)
             if adv is not None:
@@ -1040,6 +1076,68 @@ def set_fresh(f):
     _FRESH = f or _default_fresh
 
 
+def havoc_fresh(base, dt):
+    """fresh value in the index-level (havoc) mode: floating data carries no information"""
+    if dt.cat >= 2:
+        return _sc.HAVOC
+    return _default_fresh(base, dt)
+
+
+def _all_havoc(a):
+    return a.size > 0 and _py_all(v is _sc.HAVOC for v in a.flat)
+
+
+def _fresh_index(name, lo, hi):
+    """fresh symbolic integer in [lo, hi)"""
+    import z3
+    v = SymInt(z3.Int(cur().fresh_name(name)))
+    cur().assume(SymBool(z3.And(v.t >= lo, v.t < hi)))
+    return v
+
+
+def topk(t, k, dim=-1, largest=True, sorted=True):  # noqa: A002
+    if t.a.ndim != 1:
+        unsupported('topk of a non-vector')
+    n = t.a.shape[0]
+    k = int(k)
+    if k > n:
+        raise RuntimeError('selected index k out of range')
+    if not _all_havoc(t.a):
+        unsupported('topk on tracked values')
+    import z3
+    idx = [_fresh_index('topk', 0, n) for _ in range(k)]
+    for i in range(k):
+        for j in range(i):
+            cur().assume(SymBool(idx[i].t != idx[j].t))
+    vals = _np.empty((k,), dtype=object)
+    vals[...] = _sc.HAVOC
+    return Tensor(vals, t.dtype), Tensor(_objarr(idx) if k else _np.empty((0,), dtype=object), int64)
+
+
+def sort(t, dim=-1, descending=False):
+    if t.a.ndim != 1:
+        unsupported('sort of a non-vector')
+    n = t.a.shape[0]
+    vals = list(t.a)
+    if _py_all(_isinstance(v, (int, _np.integer)) and not _isinstance(v, _py_bool) for v in vals):
+        order = _b_sorted(range(n), key=lambda i: vals[i], reverse=_py_bool(descending))
+        return Tensor(_objarr([int(vals[i]) for i in order]), t.dtype), Tensor(_objarr(order), int64)
+    if t.dtype.cat != 1:
+        unsupported('sort of symbolic floating data')
+    # symbolic integers: fresh sorted values, each equal to one of the inputs (multiplicities are not tracked)
+    import z3
+    ts = [SymInt.lift(v).t for v in vals]
+    out = []
+    for j in range(n):
+        s_ = SymInt(z3.Int(cur().fresh_name('sorted')))
+        cur().assume(SymBool(z3.Or(*[s_.t == x for x in ts])))
+        if out:
+            cur().assume(SymBool(out[-1].t >= s_.t if descending else out[-1].t <= s_.t))
+        out.append(s_)
+    perm = [_fresh_index('sortidx', 0, n) for _ in range(n)]
+    return Tensor(_objarr(out), t.dtype), Tensor(_objarr(perm), int64)
+
+
 def tensor(data, dtype=None, device=None, requires_grad=False):
     from . import symnumpy
     if _isinstance(data, Tensor):
@@ -1061,6 +1159,8 @@ def tensor(data, dtype=None, device=None, requires_grad=False):
     if _isinstance(data, _np.generic):
         dt = _infer_dtype_from_np(_np.asarray(data))
         return Tensor(_objarr(_pyify(data)), dtype or dt)
+    if _isinstance(data, range):
+        data = list(data)
     a = _objarr(data)
     b = _np.empty(a.shape, dtype=object)
     for ix in _np.ndindex(*a.shape):
@@ -1518,7 +1618,17 @@ mm = matmul
 
 
 def kron(a, b):
-    unsupported('kron')
+    if not _isinstance(a, Tensor) or not _isinstance(b, Tensor):
+        raise TypeError('kron(): arguments must be tensors')
+    nd = _py_max(a.a.ndim, b.a.ndim)
+    aa = a.a.reshape((1,) * (nd - a.a.ndim) + a.a.shape)
+    bb = b.a.reshape((1,) * (nd - b.a.ndim) + b.a.shape)
+    shp = tuple(x * y for x, y in zip(aa.shape, bb.shape))
+    r = _np.empty(shp, dtype=object)
+    for ia in _np.ndindex(*aa.shape):
+        for ib in _np.ndindex(*bb.shape):
+            r[tuple(i * n + j for i, j, n in zip(ia, ib, bb.shape))] = aa[ia] * bb[ib]
+    return _mk(r, _result_dtype(a, b), (a, b))
 
 
 def outer(a, b):
